@@ -280,3 +280,209 @@ Proof.
   eapply check_stmt_where_rt; [|exact CS|exact Hw].
   eapply to_check_where; [exact TC|]. eapply parse_query_where_pimg. exact PQ.
 Qed.
+
+(* ================================================================== every expression of an
+   accepted statement: select fields, WHERE, PUT pairs, REMOVE keys *)
+
+Notation allp := (Forall (fun e => pimg e = true)).
+
+Lemma allp_snoc l e : allp l -> pimg e = true -> allp (l ++ [e]).
+Proof. intros Hl He. apply Forall_app. split; [exact Hl|]. constructor; [exact He|constructor]. Qed.
+
+Lemma select_loop_pimg : forall fuel fields names ts all fields' names' rest,
+  allp fields -> select_loop fuel fields names ts = POk (all, fields', names') rest -> allp fields'.
+Proof.
+  induction fuel as [|f IH]; intros fields names ts all fields' names' rest Hf H; [discriminate|].
+  cbn [select_loop] in H.
+  assert (Hnext : forall fs ns ts0, allp fs ->
+            select_next (select_loop f) fs ns ts0 = POk (all, fields', names') rest -> allp fields').
+  { intros fs ns ts0 Hfs Hn. unfold select_next in Hn. destruct ts0 as [|t0 ts0'].
+    - inversion Hn; subst. exact Hfs.
+    - destruct (is_tp t0 WHERE); [inversion Hn; subst; exact Hfs|]. exact (IH _ _ _ _ _ _ _ Hfs Hn). }
+  destruct ts as [|t ts1]; [inversion H; subst; exact Hf|].
+  destruct (is_tp t WHERE); [inversion H; subst; exact Hf|].
+  destruct (is_tp t OPERATOR && (data t =? "*")).
+  - destruct ts1 as [|t1 ts1'].
+    + destruct fields; [inversion H; subst; constructor|discriminate].
+    + destruct (negb (is_tp t1 WHERE)); [discriminate|].
+      destruct fields; [inversion H; subst; constructor|discriminate].
+  - apply pbind_ok in H. destruct H as (field & ts2 & Hfield & H).
+    pose proof (allp_snoc _ _ Hf (pexpr_pimg _ _ _ Hfield)) as Hf2.
+    destruct ts2 as [|t2 ts3]; [exact (Hnext _ _ _ Hf2 H)|].
+    destruct (is_tp t2 AS).
+    + destruct ts3 as [|t3 ts4]; [discriminate|]. destruct (is_tp t3 NAME); [|discriminate].
+      exact (Hnext _ _ _ Hf2 H).
+    + destruct (is_comma t2 || is_tp t2 WHERE); [|discriminate]. exact (Hnext _ _ _ Hf2 H).
+Qed.
+
+Lemma parse_select_pimg ts sh rest : parse_select ts = POk sh rest -> allp (sh_fields sh).
+Proof.
+  unfold parse_select. destruct ts as [|t ts']; [discriminate|]. intros H.
+  apply pbind_ok in H. destruct H as (u & ts1 & Hu & H).
+  apply pbind_ok in H. destruct H as ([[all fields] names] & r2 & Hl & H).
+  apply select_loop_pimg in Hl; [|constructor].
+  destruct all.
+  - inversion H; subst. cbn. repeat constructor.
+  - destruct fields; [discriminate|]. inversion H; subst. exact Hl.
+Qed.
+
+Notation allpp := (Forall (fun kv : expr * expr => pimg (fst kv) = true /\ pimg (snd kv) = true)).
+
+Lemma put_pair_pimg ts kv rest : parse_put_pair ts = POk kv rest ->
+  pimg (fst kv) = true /\ pimg (snd kv) = true.
+Proof.
+  unfold parse_put_pair. intros H.
+  apply pbind_ok in H. destruct H as (u & ts1 & Hu & H).
+  apply pbind_ok in H. destruct H as (k & ts2 & Hk & H).
+  destruct ts2 as [|t2 ts3]; [discriminate|]. destruct (is_comma t2); [|discriminate].
+  apply pbind_ok in H. destruct H as (v & ts4 & Hv & H).
+  apply pbind_ok in H. destruct H as (u2 & ts5 & Hu2 & H). inversion H; subst.
+  split; [exact (pexpr_pimg _ _ _ Hk)|exact (pexpr_pimg _ _ _ Hv)].
+Qed.
+
+Lemma put_loop_pimg : forall fuel acc ts pairs rest,
+  allpp acc -> put_loop fuel acc ts = POk pairs rest -> allpp pairs.
+Proof.
+  induction fuel as [|f IH]; intros acc ts pairs rest Ha H; [discriminate|].
+  cbn [put_loop] in H. destruct ts as [|t ts']; [inversion H; subst; exact Ha|].
+  apply pbind_ok in H. destruct H as (kv & ts1 & Hkv & H).
+  assert (Ha2 : allpp (acc ++ [kv])).
+  { apply Forall_app. split; [exact Ha|]. constructor; [exact (put_pair_pimg _ _ _ Hkv)|constructor]. }
+  destruct ts1 as [|t1 ts1']; [inversion H; subst; exact Ha2|].
+  apply pbind_ok in H. destruct H as (u & ts2 & Hu & H). exact (IH _ _ _ _ Ha2 H).
+Qed.
+
+Lemma remove_loop_pimg : forall fuel acc ts keys rest,
+  allp acc -> remove_loop fuel acc ts = POk keys rest -> allp keys.
+Proof.
+  induction fuel as [|f IH]; intros acc ts keys rest Ha H; [discriminate|].
+  cbn [remove_loop] in H. destruct ts as [|t ts']; [inversion H; subst; exact Ha|].
+  apply pbind_ok in H. destruct H as (k & ts1 & Hk & H).
+  pose proof (allp_snoc _ _ Ha (pexpr_pimg _ _ _ Hk)) as Ha2.
+  destruct ts1 as [|t1 ts1']; [inversion H; subst; exact Ha2|].
+  apply pbind_ok in H. destruct H as (u & ts2 & Hu & H). exact (IH _ _ _ _ Ha2 H).
+Qed.
+
+(* every expression the statement parser hands to the checker is a tree of the parser's image *)
+Definition stmt_pimg (s : StmtParser.stmt) : Prop :=
+  match s with
+  | StSelect x => allp (s_fields x) /\ pimg (s_where x) = true
+  | StPut _ pairs => allpp pairs
+  | StRemove _ keys => allp keys
+  | StDelete _ _ w _ => pimg w = true
+  end.
+
+Lemma where_tail_stmt_pimg h sh wpos ts s rest :
+  allp (sh_fields sh) -> parse_where_tail h sh wpos ts = POk s rest -> stmt_pimg s.
+Proof.
+  unfold parse_where_tail. destruct ts as [|t ts']; [discriminate|]. intros Hf H.
+  apply pbind_ok in H. destruct H as (w & ts1 & Hw & H).
+  destruct (hk_cycles h (sh_names sh) (sh_fields sh)); [discriminate|].
+  apply pbind_ok in H. destruct H as (tl & r2 & Htl & H). inversion H; subst.
+  cbn. split; [exact Hf|exact (pexpr_pimg _ _ _ Hw)].
+Qed.
+
+Lemma parse_query_stmt_pimg h ts s rest : parse_query h ts = POk s rest -> stmt_pimg s.
+Proof.
+  unfold parse_query. destruct (trim_end_semis ts) as [|t ts1]; [discriminate|].
+  destruct (tp t) eqn:Etp; try discriminate; intros H.
+  - apply pbind_ok in H. destruct H as (sh & r1 & Hsh & H).
+    destruct r1 as [|tw r1]; [discriminate|].
+    exact (where_tail_stmt_pimg _ _ _ _ _ _ (parse_select_pimg _ _ _ Hsh) H).
+  - apply (where_tail_stmt_pimg _ _ _ _ _ _) in H; [exact H|constructor].
+  - unfold parse_put in H. apply pbind_ok in H. destruct H as (u & r1 & Hu & H).
+    apply pbind_ok in H. destruct H as (pairs & r2 & Hp & H). inversion H; subst.
+    cbn. apply put_loop_pimg in Hp; [exact Hp|constructor].
+  - unfold parse_remove in H. apply pbind_ok in H. destruct H as (u & r1 & Hu & H).
+    apply pbind_ok in H. destruct H as (keys & r2 & Hp & H). inversion H; subst.
+    cbn. apply remove_loop_pimg in Hp; [exact Hp|constructor].
+  - unfold parse_delete in H.
+    apply pbind_ok in H. destruct H as (u & r1 & Hu & H).
+    apply pbind_ok in H. destruct H as (u2 & r2 & Hu2 & H).
+    destruct r1 as [|tw r1']; [discriminate|].
+    apply pbind_ok in H. destruct H as (w & r3 & Hw & H).
+    pose proof (pexpr_pimg _ _ _ Hw) as Hpi.
+    destruct r3 as [|t3 r3'].
+    + inversion H; subst. exact Hpi.
+    + destruct (is_tp t3 LIMIT); [|discriminate].
+      apply pbind_ok in H. destruct H as (l & r4 & Hl & H).
+      destruct r4; [|discriminate]. inversion H; subst. exact Hpi.
+Qed.
+
+Notation allrt := (Forall (fun e => rt_ok e = true)).
+
+Lemma validate_fields_rt fo all : forall todo r,
+  allp (map snd todo) -> validate_fields fo true all todo = Ok r -> allrt (map snd r).
+Proof.
+  induction todo as [|[n f] todo IH]; intros r Hp H; cbn [validate_fields] in H.
+  - inversion H; subst. constructor.
+  - cbn [map snd] in Hp. inversion Hp as [|? ? Hpf Hpt]; subst.
+    inv_bind H as f2 Hf2 H. inv_bind H as u Hu H. inv_bind H as r2 Hr2 H. inversion H; subst.
+    cbn [map snd]. constructor; [|exact (IH _ Hpt Hr2)].
+    destruct (checked_shape fo _ f f2 Hf2) as [Q1 _]. auto.
+Qed.
+
+Lemma check_pairs_rt fo : forall l r, allpp l -> check_pairs fo true l = Ok r ->
+  allrt (flat_map (fun kv => [fst kv; snd kv]) r).
+Proof.
+  induction l as [|kv l IH]; intros r Hp H; cbn [check_pairs] in H.
+  - inversion H; subst. constructor.
+  - inversion Hp as [|? ? [Hk Hv] Hpt]; subst.
+    inv_bind H as kv2 Hkv2 H. inv_bind H as l2 Hl2 H. inversion H; subst.
+    unfold check_pair in Hkv2. inv_bind Hkv2 as k2 Hk2 Hkv2. inv_bind Hkv2 as u Hu Hkv2.
+    inv_bind Hkv2 as v2 Hv2 Hkv2. inv_bind Hkv2 as u2 Hu2 Hkv2. inversion Hkv2; subst.
+    cbn [flat_map fst snd app]. constructor; [|constructor; [|exact (IH _ Hpt Hl2)]].
+    + destruct (checked_shape fo _ _ _ Hk2) as [Q1 _]. auto.
+    + destruct (checked_shape fo _ _ _ Hv2) as [Q1 _]. auto.
+Qed.
+
+Lemma check_keys_rt fo : forall l r, allp l -> check_keys fo true l = Ok r -> allrt r.
+Proof.
+  induction l as [|k l IH]; intros r Hp H; cbn [check_keys] in H.
+  - inversion H; subst. constructor.
+  - inversion Hp as [|? ? Hk Hpt]; subst.
+    inv_bind H as u Hu H. inv_bind H as k2 Hk2 H. inv_bind H as l2 Hl2 H. inversion H; subst.
+    constructor; [|exact (IH _ Hpt Hl2)].
+    destruct (checked_shape fo _ _ _ Hk2) as [Q1 _]. auto.
+Qed.
+
+Lemma map_snd_combine_allp (names : list string) : forall fields,
+  allp fields -> allp (map snd (combine names fields)).
+Proof.
+  induction names as [|n names IH]; intros fields Hf; [constructor|].
+  destruct fields as [|f fields]; [constructor|]. inversion Hf; subst.
+  cbn [combine map snd]. constructor; auto.
+Qed.
+
+Theorem accepted_exprs_rt_ok_thm fo re_match fmt_v q s c agg :
+  parse_check fo re_match fmt_v q = PCOk s c agg -> allrt (cstmt_exprs c).
+Proof.
+  unfold parse_check. destruct (pc_oom fo q (lex q)); [discriminate|].
+  unfold parse_real, parse_with.
+  destruct (parse_query (real_hooks fo) (lex q)) as [s0 rest| | |] eqn:PQ; try discriminate.
+  unfold check_parsed. destruct (to_check s0) as [c0|] eqn:TC; [|discriminate].
+  destruct (check_stmt fo true c0) as [c2|er| |] eqn:CS; try discriminate;
+    [|destruct er; discriminate].
+  destruct (check_stmt_calls c2) as [u|er| |]; try discriminate; [|destruct er; discriminate].
+  unfold plan_stage. destruct (plan_oom fo re_match fmt_v c2); [discriminate|].
+  intros H.
+  assert (c = c2) by (destruct (plan_check fo re_match fmt_v s0 c2); inversion H; reflexivity).
+  subst c. clear H.
+  pose proof (parse_query_stmt_pimg _ _ _ _ PQ) as Hp.
+  destruct s0 as [x|p pairs|p keys|p wp w l]; cbn [to_check] in TC.
+  - destruct (negb _); [discriminate|]. inversion TC; subst c0. clear TC.
+    destruct Hp as [Hpf Hpw]. cbn [check_stmt] in CS. unfold check_select in CS.
+    inv_bind CS as u1 Hu1 CS. inv_bind CS as w1 Hw1 CS. inv_bind CS as u2 Hu2 CS.
+    inv_bind CS as f2 Hf2 CS. inversion CS; subst c2. cbn [cstmt_exprs].
+    apply Forall_app. split.
+    + eapply validate_fields_rt; [|exact Hf2]. apply map_snd_combine_allp. exact Hpf.
+    + constructor; [|constructor]. rewrite rw_rt_ok.
+      destruct (checked_shape fo _ _ _ Hw1) as [Q1 _]. auto.
+  - inversion TC; subst c0. cbn [check_stmt] in CS. inv_bind CS as p2 Hp2 CS. inversion CS; subst c2.
+    cbn [cstmt_exprs]. exact (check_pairs_rt fo _ _ Hp Hp2).
+  - inversion TC; subst c0. cbn [check_stmt] in CS. inv_bind CS as k2 Hk2 CS. inversion CS; subst c2.
+    cbn [cstmt_exprs]. exact (check_keys_rt fo _ _ Hp Hk2).
+  - inversion TC; subst c0. cbn [check_stmt] in CS. inv_bind CS as w1 Hw1 CS.
+    inv_bind CS as u1 Hu1 CS. inversion CS; subst c2. cbn [cstmt_exprs].
+    constructor; [|constructor]. destruct (checked_shape fo _ _ _ Hw1) as [Q1 _]. auto.
+Qed.
